@@ -236,11 +236,25 @@ class Oracle:
             self.hit("wb_keys_checked")
             return None
         if name == "c.scanall":
-            present = sorted(k for (d, k) in self.ref if d == a[2] and self.live((d, k)) is not None)
+            import re
+            pat = None if len(a) < 4 or a[3] == "*" else re.compile(bytes.fromhex(a[3]).decode())
+
+            def matches(k):
+                return pat is None or pat.search(bytes.fromhex(k).decode("latin-1") if k != "-" else "") is not None
+            # every live key (matching the pattern) exactly once; an expired entry that no scan has removed yet may show up
+            must = sorted(k for (d, k) in self.ref if d == a[2] and self.live((d, k)) is not None and matches(k))
+            may = set(k for (d, k) in self.ref if d == a[2] and matches(k))
             got = reply.split()[1:]
-            if sorted(got) != present:
-                return "iterator over %s via %s/m%s yielded %s, present keys %s" % (a[2], a[0], a[1], sorted(got)[:10], present[:10])
+            if len(set(got)) != len(got):
+                return "iterator over %s via %s/m%s yielded a key twice: %s" % (a[2], a[0], a[1], sorted(got)[:12])
+            if not set(must) <= set(got) or not set(got) <= may:
+                return "iterator over %s via %s/m%s (match %s, count %s) yielded %s, present keys %s" % (
+                    a[2], a[0], a[1], a[3] if len(a) > 3 else "*", a[4] if len(a) > 4 else "default", sorted(got)[:12], must[:12])
             self.hit("iterator_checked")
+            if pat is not None:
+                self.hit("iterator_match" if must else "iterator_match_nothing")
+            if len(a) > 4 and a[4] == "1" and len(must) >= 2:
+                self.hit("iterator_count_1")
             return None
         if name == "wb":
             dk = (a[0], a[1])
@@ -319,6 +333,10 @@ class Gen:
             path = r.choice(PATHS)
             m = r.randrange(n)
             yield "c.own %s %s" % (dm, key)
+            if r.random() < 0.05:
+                # a full iteration with the client iterator: every page size, with and without a pattern
+                pat = r.choice(["*", "*", hx(b"^k[0-3]$"), hx(b"k1"), hx(b"zzz"), hx(b"^(k0|ctr)")])
+                yield "c.scanall %s %d %s %s %d" % (r.choice(["emb", "cli"]), r.randrange(n), dm, pat, r.choice([1, 1, 2, 3, 10, 1000]))
             if r.random() < 0.04:
                 # the background workers run at any moment: expired entries are removed by the eviction scan (on the owner and
                 # its backups), tables are compacted, empty fragments are dropped - no operation may notice
@@ -452,5 +470,5 @@ class Gen:
                 yield self.tick()
 
 
-REQUIRED_SHAPES = ["custom_dmap_ttl", "pipeline_multi", "pipeline_two_getputs", "incr_decr", "getput", "lock_acquired", "lock_contended", "wrong_token", "mirror_checked", "put_cond_and_ttl", "expire_present", "multi_key_delete", "read_after_expiry",
+REQUIRED_SHAPES = ["iterator_checked", "iterator_match", "iterator_count_1", "custom_dmap_ttl", "pipeline_multi", "pipeline_two_getputs", "incr_decr", "getput", "lock_acquired", "lock_contended", "wrong_token", "mirror_checked", "put_cond_and_ttl", "expire_present", "multi_key_delete", "read_after_expiry",
                    "read_from_non_owner"]
